@@ -651,6 +651,7 @@ def RECT(z):
 
 @contract(I + 'mpci_add', view='real')
 class _:
+    search = 'mpci2_inputs'
     shapes = dict(x=('tuple', 'mpi', 'mpi'), y=('tuple', 'mpi', 'mpi'), prec='int')
     result = ('tuple', 'mpi', 'mpi')
     ghost_params = dict(xr='real', xi='real', yr='real', yi='real')
@@ -674,6 +675,7 @@ class _:
 
 @contract(I + 'mpci_sub', view='real')
 class _:
+    search = 'mpci2_inputs'
     shapes = dict(x=('tuple', 'mpi', 'mpi'), y=('tuple', 'mpi', 'mpi'), prec='int')
     result = ('tuple', 'mpi', 'mpi')
     ghost_params = dict(xr='real', xi='real', yr='real', yi='real')
@@ -697,6 +699,7 @@ class _:
 
 @contract(I + 'mpci_neg', view='real')
 class _:
+    search = 'mpci1_inputs'
     shapes = dict(x=('tuple', 'mpi', 'mpi'), prec='int')
     result = ('tuple', 'mpi', 'mpi')
     ghost_params = dict(xr='real', xi='real')
@@ -720,6 +723,7 @@ class _:
 
 @contract(I + 'mpci_pos', view='real')
 class _:
+    search = 'mpci1_inputs'
     shapes = dict(x=('tuple', 'mpi', 'mpi'), prec='int')
     result = ('tuple', 'mpi', 'mpi')
     ghost_params = dict(xr='real', xi='real')
@@ -743,6 +747,7 @@ class _:
 
 @contract(I + 'mpci_mul', view='real')
 class _:
+    search = 'mpci2_inputs'
     shapes = dict(x=('tuple', 'mpi', 'mpi'), y=('tuple', 'mpi', 'mpi'), prec='int')
     result = ('tuple', 'mpi', 'mpi')
     ghost_params = dict(xr='real', xi='real', yr='real', yi='real')
@@ -768,6 +773,7 @@ class _:
 
 @contract(I + 'mpci_div', view='real')
 class _:
+    search = 'mpci2_inputs'
     shapes = dict(x=('tuple', 'mpi', 'mpi'), y=('tuple', 'mpi', 'mpi'), prec='int')
     result = ('tuple', 'mpi', 'mpi')
     ghost_params = dict(xr='real', xi='real', yr='real', yi='real')
